@@ -13,6 +13,8 @@ import YtkProofs.Merge
 import YtkProofs.Heap
 import YtkProofs.Decisions
 import YtkProofs.Decisions2
+import YtkProofs.Fluent
+import YtkProofs.FuncsDomMerge
 
 namespace Ytk.C04
 
@@ -560,5 +562,192 @@ theorem merge_self_append_counterexample :
     mergeC .append [("l", .list [i 1])] [("l", .list [i 1])] = [("l", .list [i 1, i 1])] ∧
     mergeC .meld [("l", .list [i 1])] [("l", .list [i 1])] = [("l", .list [i 1])] :=
   ⟨wf_of_wfb _ (by decide), by decide, by decide⟩
+
+/-! ## fluent.ConfigHelper (fluent/fluent.go; model YtkModel/Fluent.lean) — "the same law observed end-to-end
+    through fluent.ConfigHelper" -/
+end Ytk.C04
+
+namespace Ytk.C04
+section fluent
+open Ytk.Fluent
+variable {α Γ : Type}
+
+/-- A history of Adds (maps, dom containers, anything yaml.v3 turns into a map) on a new helper accumulates the
+    LEFT FOLD of Merge (default list strategy) over the documents' containers, from the empty document — i.e.
+    `OverlayDocument.Merged` of the same documents as layers (`mergeAll`).  Hence all laws of this file apply to
+    every step (`merge_keys`, `merge_lookup`: a later document wins unless its value is null …). -/
+theorem fluent_adds_fold (vy : α → Option (List (String × Val))) (fl : TplFuncs.Files Γ)
+    (ds : List (Doc α)) (cs : List (AMap Node)) (h : ds.map (Doc.toDom? vy) = cs.map some) :
+    run vy fl Fluent.init (ds.map .add) = cs.foldl (mergeC .meld) [] ∧
+    run vy fl Fluent.init (ds.map .add) = mergeAll .meld cs :=
+  ⟨run_adds vy fl ds cs _ h, run_adds vy fl ds cs _ h⟩
+
+/-- one more Add: per key, what `merge_lookup` says of the accumulated document and the new one -/
+theorem fluent_add_lookup (vy : α → Option (List (String × Val))) (s : State) (d : Doc α) (c : AMap Node)
+    (hd : Doc.toDom? vy d = some c) (hc : AMap.Sorted c) (k : String) :
+    ∃ s', Fluent.add vy s d = .ok s' ∧ AMap.get? s' k =
+      match AMap.get? s k, AMap.get? c k with
+      | some x, some y => some (mergeNode .meld x y)
+      | some x, none => some x
+      | none, some y => some y
+      | none, none => none :=
+  ⟨_, add_of_toDom vy s d c hd, merge_lookup .meld s c hc k⟩
+
+/-- Load(file) is Add of the decoded file; any failure on the way (open, unrecognised suffix, decoder) is a panic -/
+theorem fluent_load_spec (fl : TplFuncs.Files Γ) (s : State) (f : String) :
+    load fl s f = match TplFuncs.loadFile fl f with
+      | .ok c => .ok (mergeC .meld s c)
+      | _ => .panic := by
+  unfold load; cases TplFuncs.loadFile fl f <;> rfl
+
+/-- a panicking Add / Load leaves the helper as it was: the sources after it merge over what was there before -/
+theorem fluent_failed_call_keeps_state (vy : α → Option (List (String × Val))) (fl : TplFuncs.Files Γ)
+    (s : State) (op : Op α) (hop : ∀ es, op ≠ .mutate es) (hp : (step vy fl s op).2 = true) :
+    (step vy fl s op).1 = s := step_panic_keeps vy fl s op hop hp
+
+/-- INPUTS UNTOUCHED, pointer level: along a chain `Add(d1)…Add(dn)` of dom containers no existing cell is written —
+    every document of the heap before the chain (each input `di`, every earlier accumulated document) abstracts to
+    exactly the value it had, after the chain. -/
+theorem fluent_inputs_untouched (f : Nat) (ds : List Ytk.Heap.Addr) (h h' : Ytk.Heap.Heap) (acc r : Ytk.Heap.Addr)
+    (hm : addAllH f h acc ds = some (h', r)) :
+    h ≤ h' ∧ ∀ (g : Nat) (x : Ytk.Heap.Addr) (n : Node), Ytk.Heap.absH g h x = some n → Ytk.Heap.absH g h' x = some n :=
+  ⟨addAllH_le f ds h h' acc r hm, fun g x n hn => Ytk.Heap.absH_mono (addAllH_le f ds h h' acc r hm) g x n hn⟩
+
+/-- Mutate is the history of builder calls applied to the accumulated document (C03's `bstep`), and Result reads
+    the document that history left: edits are visible in Result. -/
+theorem fluent_mutate_visible {τ : Type} (rt : List (String × Val) → Option τ) (s : State) (es : List BOp) (s' : State)
+    (h : brun s es = .ok s') : mutate s es = (s', false) ∧ result rt s' = (match rt (asMap s') with
+      | some t => .ok t | none => .panic) := by
+  refine ⟨?_, by unfold result; cases rt (asMap s') <;> rfl⟩
+  induction es generalizing s with
+  | nil => simp only [brun, Outcome.ok.injEq] at h; subst h; rfl
+  | cons e es ih =>
+    simp only [brun] at h
+    simp only [mutate]
+    cases hb : bstep s e with
+    | ok s1 => rw [hb] at h; simp only; exact ih s1 h
+    | err => rw [hb] at h; cases h
+    | panic => rw [hb] at h; cases h
+
+/-- Result round trip under the codec contract (yaml.v3: decode ∘ encode = id on the value): a new helper given
+    one map returns that map. -/
+theorem fluent_result_roundtrip (vy : α → Option (List (String × Val)))
+    (rt : List (String × Val) → Option (List (String × Val))) (hrt : ∀ v, rt v = some v)
+    (m : List (String × Val)) (hw : (Val.obj m).WF) (hn : Val.noIdxKeys (.obj m) = true) :
+    (Fluent.add vy Fluent.init (.map m)).bind (result rt) = .ok m := result_add_map vy rt hrt m hw hn
+
+/-- Result is the codec applied to AsMap of the accumulated document; when the codec fails, a panic -/
+theorem fluent_result_spec {τ : Type} (rt : List (String × Val) → Option τ) (s : State) :
+    result rt s = match rt (asMap s) with | some t => .ok t | none => .panic := by
+  unfold result; cases rt (asMap s) <;> rfl
+
+/-- Save hands AsMap of the accumulated document to the suffix's encoder, creates the file BEFORE an unrecognised
+    suffix makes it panic, and never changes the helper (it returns no state). -/
+theorem fluent_save_spec (ext : String) (canOpen : Bool) (ef : FileCodec.Fmt → List (String × Val) → Bool) (s : State) :
+    (canOpen = false → save ext canOpen ef s = ⟨true, false, none⟩) ∧
+    (canOpen = true → FileCodec.ofSuffix ext = none → save ext canOpen ef s = ⟨true, true, none⟩) ∧
+    (∀ fmt, canOpen = true → FileCodec.ofSuffix ext = some fmt →
+      save ext canOpen ef s = ⟨ef fmt (asMap s), true, some (fmt, asMap s)⟩) := by
+  refine ⟨?_, ?_, ?_⟩
+  · intro h; simp [save, h]
+  · intro h h2; simp [save, h, h2]
+  · intro fmt h h2; simp [save, h, h2]
+
+def exF1 : List (String × Val) := [("a", .sc ⟨"int", "1"⟩), ("l", .arr [.sc ⟨"int", "1"⟩])]
+def exF2 : AMap Node := [("a", .leaf Scalar.null), ("b", .leaf ⟨"string", "x"⟩), ("l", .list [.leaf ⟨"int", "7"⟩, .leaf ⟨"int", "8"⟩])]
+
+/-- concrete non-trivial history: a map, then a dom container whose `a` is null (kept from the first), then an edit -/
+theorem nonvacuous_fluent :
+    run (fun (x : Unit) => none) (⟨fun _ => "", fun _ => (none : Option Unit), fun _ _ => none⟩ : TplFuncs.Files Unit)
+        Fluent.init [.add (.map exF1), .add (.dom exF2), .mutate [.addValueAt "c.d" (.leaf ⟨"bool", "true"⟩)], .load "nosuch.yaml"] =
+      [("a", .leaf ⟨"int", "1"⟩), ("b", .leaf ⟨"string", "x"⟩), ("c", .cont [("d", .leaf ⟨"bool", "true"⟩)]),
+       ("l", .list [.leaf ⟨"int", "7"⟩, .leaf ⟨"int", "8"⟩])] ∧
+    (Val.obj exF1).WF ∧ Val.noIdxKeys (.obj exF1) = true := by
+  refine ⟨by decide +kernel, ?_, by decide⟩
+  have hs : AMap.Sorted exF1 :=
+    .cons (fun p hp => by
+      simp only [List.mem_cons, List.mem_nil_iff, or_false] at hp
+      subst hp; decide) (.cons (fun _ hp => by cases hp) .nil)
+  refine .obj hs ?_
+  intro p hp
+  simp only [exF1, List.mem_cons, List.mem_nil_iff, or_false] at hp
+  rcases hp with rfl | rfl
+  · exact .sc _
+  · exact .arr (fun x hx => by
+      simp only [List.mem_cons, List.mem_nil_iff, or_false] at hx
+      subst hx; exact .sc _)
+
+end fluent
+end Ytk.C04
+
+/-! ## xlate7c: dom/merge.go REGENERATED from the source (YtkModel/Generated/FuncsDom.lean) equals the model
+
+  `extract/translate_dom.go` translates `hasValue`, `coalesce`, `firstValidListItem`, `mergeListsAppend`,
+  `(*merger).mergeContainers` and `(*merger).mergeListsMeld` from /repo's working tree on every run, over the
+  trusted DOM primitives of YtkModel/DomPrelude.lean.  The theorems below say, for ALL inputs, that the
+  translation returns (`Go.Res.ok`: no panic, recursion / loop fuel not exhausted) exactly what the
+  hand-written model of YtkModel/Merge.lean returns — on well-formed documents where the model's map
+  representation needs it.  An edit of one of these Go functions changes the generated definition and the
+  theorem of that function stops checking.  Proofs: YtkProofs/FuncsDomMerge.lean. -/
+namespace Ytk.C04
+open Ytk.Generated
+
+/-- hasValue(n) for a non-nil node; `hasValue(nil) = false` -/
+theorem hasValue_generated_eq_model (n : Node) :
+    FuncsDom.hasValue (some n) = .ok (hasValue n) ∧ FuncsDom.hasValue none = .ok false :=
+  ⟨FuncsDomMerge.hasValue_generated_eq_model n, FuncsDomMerge.hasValue_generated_nil⟩
+
+/-- coalesce(nodes...) — any number of arguments, in the order of the call -/
+theorem coalesce_generated_eq_model (nodes : List Node) : FuncsDom.coalesce nodes = .ok (coalesceList nodes) :=
+  FuncsDomMerge.coalesce_generated_eq_model nodes
+
+/-- firstValidListItem(idx, lists...) for a non-negative index -/
+theorem firstValidListItem_generated_eq_model (i : Nat) (lists : List (List Node)) :
+    FuncsDom.firstValidListItem (i : Int) lists = .ok (firstValidListItem i lists) :=
+  FuncsDomMerge.firstValidListItem_generated_eq_model i lists
+
+theorem mergeListsAppend_generated_eq_model (l1 l2 : List Node) :
+    FuncsDom.mergeListsAppend l1 l2 = .ok (appendList l1 l2) :=
+  FuncsDomMerge.mergeListsAppend_generated_eq_model l1 l2
+
+/-- merger.mergeContainers with the field `mg.listMergeFn` as the parameter `f`: for every `f` that behaves as
+    the model's list strategy `o` on the (well-formed) lists inside `c2` -/
+theorem mergeContainers_generated_eq_model (o : ListStrategy) (f : List Node → List Node → Go.Res (List Node))
+    (c1 c2 : AMap Node)
+    (hf : ∀ a b, (Node.list a).WF → (Node.list b).WF → Node.sizeList b < Node.sizeKvs c2 → f a b = .ok (mergeList o a b))
+    (h1 : (Node.cont c1).WF) (h2 : (Node.cont c2).WF) :
+    FuncsDom.mergeContainers f c1 c2 = .ok (mergeKvs o c1 c2) :=
+  FuncsDomMerge.mergeContainers_generated_eq_model o f c1 c2 hf h1 h2
+
+/-- merger.mergeListsMeld, likewise -/
+theorem mergeListsMeld_generated_eq_model (o : ListStrategy) (f : List Node → List Node → Go.Res (List Node))
+    (l1 l2 : List Node)
+    (hf : ∀ a b, (Node.list a).WF → (Node.list b).WF → Node.sizeList b < Node.sizeList l2 → f a b = .ok (mergeList o a b))
+    (h1 : (Node.list l1).WF) (h2 : (Node.list l2).WF) :
+    FuncsDom.mergeListsMeld f l1 l2 = .ok (meldList o l1 l2) :=
+  FuncsDomMerge.mergeListsMeld_generated_eq_model o f l1 l2 hf h1 h2
+
+/-- `Merge(other, ListsMergeAppend())`: the field is the translated `mergeListsAppend` -/
+theorem merge_append_generated_eq_model (c1 c2 : AMap Node) (h1 : (Node.cont c1).WF) (h2 : (Node.cont c2).WF) :
+    FuncsDom.mergeContainers FuncsDom.mergeListsAppend c1 c2 = .ok (mergeC .append c1 c2) :=
+  FuncsDomMerge.mergeContainers_generated_eq_model .append _ c1 c2 (FuncsDomMerge.listFnOk_append _) h1 h2
+
+/-- `Merge(other)` with the default option: the field is the translated `mergeListsMeld` of the same merger
+    (`meldKnot`: that self-reference, unrolled as often as `c2` is deep) -/
+theorem merge_meld_generated_eq_model (c1 c2 : AMap Node) (h1 : (Node.cont c1).WF) (h2 : (Node.cont c2).WF) :
+    FuncsDom.mergeContainers (FuncsDomMerge.meldKnot (Node.sizeKvs c2)) c1 c2 = .ok (mergeC .meld c1 c2) :=
+  FuncsDomMerge.mergeContainers_generated_eq_model .meld _ c1 c2 (FuncsDomMerge.listFnOk_meld _) h1 h2
+
+/-- the translated code, RUN on a document with nested containers, lists of different lengths, a null that
+    does not overwrite and a kind conflict -/
+theorem nonvacuous_merge_generated :
+    FuncsDom.mergeContainers (FuncsDomMerge.meldKnot 20)
+        [("a", .cont [("x", i 1)]), ("l", .list [i 1, .cont [("p", i 1)]]), ("n", i 5), ("z", i 0)]
+        [("a", .cont [("y", i 2)]), ("l", .list [Node.null, .cont [("q", i 2)], i 3]), ("n", Node.null), ("z", .list [])]
+      = .ok [("a", .cont [("x", i 1), ("y", i 2)]), ("l", .list [i 1, .cont [("p", i 1), ("q", i 2)], i 3]),
+             ("n", i 5), ("z", .list [])] ∧
+    FuncsDom.mergeContainers FuncsDom.mergeListsAppend [("l", .list [i 1])] [("l", .list [i 2])]
+      = .ok [("l", .list [i 1, i 2])] := by
+  decide
 
 end Ytk.C04
